@@ -331,6 +331,36 @@ func scenarioLengths(c *harness.Ctx) {
 func passwords(tp *tape.Tape) (server, client string) {
 	base := []string{"", "p", "hunter2", "PassWord", "pa\x00ss", "\xff\xfe", "a-much-longer-password-0123456789"}[tp.Choose(7)]
 	server = base
+	// passwords are opaque byte strings: white space and line endings count
+	ws := []string{"\n", "\r\n", "\r", " ", "\t", "\n\n"}
+	if tp.Bool(1, 5) {
+		pPwWhitespace.Hit()
+		if tp.Bool(1, 4) {
+			server = ws[tp.Choose(len(ws))] + server
+		} else {
+			server += ws[tp.Choose(len(ws))]
+		}
+		if tp.Bool(1, 2) {
+			// the same password without (or with other) white space must be refused
+			switch tp.Choose(4) {
+			case 0:
+				client = strings.TrimRight(server, "\r\n")
+			case 1:
+				client = strings.TrimSpace(server)
+			case 2:
+				client = strings.TrimRight(server, "\r\n \t") + ws[tp.Choose(len(ws))]
+			default:
+				client = strings.TrimLeft(server, "\r\n \t")
+			}
+			if client != server {
+				return
+			}
+		}
+	} else if tp.Bool(1, 8) {
+		pPwWhitespace.Hit()
+		client = server + ws[tp.Choose(len(ws))]
+		return
+	}
 	switch tp.Pick(4, 1, 1, 1, 1, 1, 1, 1, 1) {
 	case 7:
 		// two characters swapped (same multiset of bytes)
@@ -768,3 +798,5 @@ var prop = &harness.Property{
 }
 
 func TestWorker(t *testing.T) { harness.Main(t, prop) }
+
+var pPwWhitespace = simrt.NewProbe("login.password.with.white.space.or.line.ending")
